@@ -4061,3 +4061,39 @@ fn parse_unmod(
         _ => panic!("Unknown unmod type {unmod_type}"),
     }
 }
+
+/// Verification hook (add-only, compiled only with `--cfg jtroo_kanata_verif`): the part of
+/// `parse_cfg_raw_string` that turns the configuration text into the expanded list of top-level
+/// items (include splicing, platform filter, environment filter, template expansion), calling the
+/// same private functions in the same order with the arguments `new_from_str` uses.
+#[cfg(jtroo_kanata_verif)]
+pub fn verif_expand_pipeline(
+    cfg_text: &str,
+    file_content: HashMap<String, String>,
+) -> Result<Vec<TopLevel>> {
+    let mut lsp_hints: LspHints = Default::default();
+    let mut get = move |fname: &Path| match file_content.get(fname.to_string_lossy().as_ref()) {
+        Some(s) => Ok(s.clone()),
+        None => Err("File is not known".to_string()),
+    };
+    let mut file_content_provider = FileContentProvider::new(&mut get);
+    let env_vars: EnvVars = Err("environment variables are not supported".into());
+    sexpr::parse(cfg_text, "configuration")
+        .and_then(|xs| expand_includes(xs, &mut file_content_provider, &mut lsp_hints))
+        .and_then(|xs| filter_platform_specific_cfg(xs, DEF_LOCAL_KEYS, &mut lsp_hints))
+        .and_then(|xs| filter_env_specific_cfg(xs, &env_vars, &mut lsp_hints))
+        .and_then(|xs| expand_templates(xs, &mut lsp_hints))
+}
+
+/// Verification hook (add-only): `parse_vars` over the `defvar` items of an expanded top-level list,
+/// selected exactly as `parse_cfg_raw_string` selects them.
+#[cfg(jtroo_kanata_verif)]
+pub fn verif_parse_vars(root: &[TopLevel]) -> Result<HashMap<String, SExpr>> {
+    let mut lsp_hints: LspHints = Default::default();
+    let root_exprs: Vec<_> = root.iter().map(|t| t.t.clone()).collect();
+    let var_exprs = root_exprs
+        .iter()
+        .filter(gen_first_atom_filter("defvar"))
+        .collect::<Vec<_>>();
+    parse_vars(&var_exprs, &mut lsp_hints)
+}
